@@ -535,6 +535,34 @@ def explore(tier, seed, res=None, replay=None):
                                                  "impl": d, "expected": "two call terms",
                                                  "why": "two call terms with different readings of "
                                                         "their arguments are not both kept"})
+        # a keyword assignment `name = value` has a meaning directly in a call's argument list only.
+        # The grammar also admits it inside parentheses / braces; whatever the later stages make of
+        # such a sentence, they may not drop `name =` and carry on with the value alone (tenth
+        # seeded wave, C01_P): the sentence is refused, or the name written shows in the result
+        rng_a = rng_for(seed, "c01", "assign")
+        shapes = ["y ~ a + ({n} = {v})", "y ~ a:({n} = {v})", "y ~ ({n} = {v}) * a", "y ~ ({n} = {v})",
+                  "y ~ f(x, ({n} = {v}))", "y ~ I(({n} = {v}) + 1)", "y ~ a + {{({n} = {v})}}",
+                  "y ~ (a | ({n} = {v}))", "y ~ (({n} = {v}) | g)", "({n} = {v}) ~ a",
+                  "y ~ a - ({n} = {v})", "y ~ a / ({n} = {v}) + b", "y ~ (({n} = {v}))",
+                  "y ~ f(({n} = {v}), k = 2)", "y ~ a + ({n} = {v}) ** 2"]
+        for shape in shapes:
+            for _ in range(2 if tier == "quick" else 12):
+                n = rng_a.choice(["kw", "weights", "lam", "q7", "ref"])
+                v = rng_a.choice(["b", "2", "x", "g", "b + c", "f(x)", "'s'"])
+                text = shape.format(n=n, v=v)
+                if rng_a.random() < 0.5:
+                    text = join(text.split(" "), rng_a, wild=False)
+                res.evaluations += 1
+                res.count("kind:misplaced-assignment")
+                d = describe(text)
+                if "err" in d:
+                    continue
+                names = [d.get("response") or ""] + d.get("common", []) + d.get("group", [])
+                if not any(n in nm for nm in names):
+                    res.failures.append({"case": {"s": text, "kind": "misplaced-assignment"},
+                                         "impl": d, "expected": "refused (or a result that shows the "
+                                         f"name {n!r})",
+                                         "why": f"accepted with `{n} =` silently dropped"})
         # history: the public entry point reads every string from its own characters — a well-formed
         # formula first, then look-alikes that differ from it by whitespace only, then it again
         n_hist = 150 if tier == "quick" else 3000
